@@ -18,6 +18,10 @@ navis.config.pbar_hide = True
 navis.set_loggers('ERROR')
 
 
+# streams of later properties, added here once their driver commands are linked into navisdrv
+EXTRA_STREAMS = []
+
+
 def optional(name):
     try:
         return importlib.import_module(f'harness.{name}')
@@ -95,7 +99,7 @@ def run(ctx):
                          f'{available()} against the same Lean model; plus direct pairwise comparison of 12 observables per forest; '
                          'non-trivial when ≥ 3 nodes')
     mods = [('c05', c05, 25, 300), ('c10', c10, 25, 300), ('c12', c12, 25, 300)]
-    for nm in ('c17', 'c11', 'c13'):
+    for nm in EXTRA_STREAMS:
         m = optional(nm)
         if m is not None and hasattr(m, 'gen_cases') and hasattr(m, 'RUNNERS'):
             mods.append((nm, m, 15, 200))
